@@ -48,7 +48,7 @@ func init() {
 		return &fw.Prop{
 			ID:    "C17",
 			Level: "exploration",
-			Rule:  "cases = (accepted instance, Goldilocks-typed leaf position of Proof found by reflection, offset k*p with k in {1, 2, 2^64, largest k with value < r}, face, hint policy) executed through VerifierCircuit.Define; the verdict must be REJECT/REFUSE under the honest-with-total-fallback hint policy and under every adversarial limb candidate for the non-canonical value ((x>>32, x&mask), (hi-1, lo+2^32), (0,x), limbs of x mod p). Non-trivial = the leaf value really became non-canonical; distinct by (instance, leaf path, k, face). Also: the first position of every kind under the commitment-based mechanism with every forged limb pair, and both wrappers.",
+			Rule:  "cases = (accepted instance, Goldilocks-typed leaf position of Proof found by reflection, offset k*p with k in {1, 2, 2^64, largest k with value < r}, face, hint policy) executed through VerifierCircuit.Define; the verdict must be REJECT/REFUSE under the honest-with-total-fallback hint policy and under every adversarial limb candidate for the non-canonical value ((x>>32, x&mask), (hi-1, lo+2^32), (0,x), limbs of x mod p). Non-trivial = the leaf value really became non-canonical; distinct by (instance, leaf path, k, face). Also: the first position of every kind under the commitment-based mechanism with every forged limb pair, and both wrappers. File level (rawnc): residue + p for residues {0, 1, 2^32-2} written into the raw proof document at 14 positions (every kind of Goldilocks value, first / last element, both coordinates, the PoW witness), read by the repository's own deserialiser: the value must arrive at the circuit as written (a reader that normalises it gives one proof two accepted documents) and the verifier must not accept.",
 			Assumptions: []string{
 				"public inputs are excluded: the property lists proof elements only and the circuit deliberately reduces public inputs",
 				"under the Commit face the checks are deferred to the end of the circuit, so that face is sampled; Native and Plain stop inside the canonicity sweep",
@@ -111,10 +111,15 @@ func init() {
 						k := c17Ks[i%len(c17Ks)]
 						cs = append(cs, fw.Case{ID: fmt.Sprintf("commit/%s/%s/k=%s", name, l.Path, k), Kind: "nc", P: map[string]any{"inst": name, "path": l.Path, "k": k, "face": "commit", "pol": "fallback", "leafkind": l.Kind}})
 					}
+					// file level: residue + p written into the raw document (c17_raw.go)
+					cs = append(cs, c17RawGen(ctx, name)...)
 				}
 				return cs
 			},
 			Exec: func(ctx *fw.Ctx, c fw.Case) fw.Outcome {
+				if c.Kind == "rawnc" {
+					return c17RawExec(ctx, c)
+				}
 				var o fw.Outcome
 				in := getInst(c.Str("inst")).Clone()
 				ls := circ.Leaves(&in.PWI.Proof)
